@@ -53,3 +53,10 @@ package datadog
 //@   callsite cb requires arg0 == f.ts && calls(cb) == 0
 //@   ensures  [handoff] calls(cb) == ite(old(len(f.ts.Series)) > 0, 1, 0)
 //@   modifies everything
+
+// post (C16): the retry loop ends when the back-off policy says the retry window is over (NextBackOff returned
+// backoff.Stop, -1): no further wait and no further attempt follows such an answer, so the flush request's
+// completion cannot be postponed for ever by a server that keeps refusing.
+//@ func (*Client).post
+//@   callsite NewTimer requires lastresult(NextBackOff, 0) != -1
+//@   modifies everything
